@@ -12,11 +12,12 @@ class Unsupported(Exception):
 
 class SV:
     """typed symbolic value"""
-    __slots__ = ('t', 'z')
+    __slots__ = ('t', 'z', 'shared')
 
     def __init__(self, t, z):
         self.t = t
         self.z = z
+        self.shared = None      # name of the callee that OWNS this container (a memoised result handed out by reference)
 
     def __repr__(self):
         return 'SV(%s, %s)' % (self.t, self.z)
@@ -145,6 +146,14 @@ class MRev:
 class MZip:
     def __init__(self, parts):
         self.parts = parts
+
+
+class MIter:
+    """iterator over a statically-sized list: immutable (items, pos); `next(name, default)` REBINDS the name to the
+    advanced iterator (states stay independent after a fork)"""
+    def __init__(self, items, pos=0):
+        self.items = list(items)
+        self.pos = pos
 
 
 class MRange:
